@@ -574,6 +574,8 @@ void Context::resetRuntime(const Context& parent)
   _breakCondition = false;
   _continueCondition = false;
   _returnCondition = false;
+  /* the error kept by a handler that raised belongs to the call that failed */
+  _last_error = RuntimeError();
   size_t n = std::min(_storage_pool.size(), parent._storage_pool.size());
   for (size_t i = 0; i < n; ++i)
   {
